@@ -962,8 +962,7 @@ class Executor(Generic[TContext]):
                 # This wrapper has been cancelled itself (e.g. since a sibling failed),
                 # so the wrapped awaitable must be cancelled and unwound as well.
                 task.cancel()
-                with suppress(BaseException):
-                    await task
+                await self.settle_cancelled(task)
                 raise
             finally:
                 if not abort.done():
@@ -973,18 +972,30 @@ class Executor(Generic[TContext]):
         # The abort signal fired (possibly in the same tick the task settled);
         # discard any task result and reject with the abort reason.
         task.cancel()
-        try:
-            await wait({task})
-        except CancelledError:
+        if await self.settle_cancelled(task):
             # This wrapper has been cancelled itself while the cancelled task was
             # settling. That cancellation must not be swallowed, since otherwise
             # the caller would keep running although it has been cancelled.
-            await wait({task})
-            raise
-        finally:
-            if task.done() and not task.cancelled():
-                task.exception()  # mark a late exception as retrieved
+            raise CancelledError
         raise self.abort_error()
+
+    @staticmethod
+    async def settle_cancelled(task: Future[Any]) -> bool:
+        """Wait until a cancelled task has unwound.
+
+        The task may need to await while it unwinds, and the caller may be
+        cancelled (even repeatedly) while it waits for that; the task must not be
+        left behind in that case. Returns whether the caller has been cancelled.
+        """
+        cancelled = False
+        while not task.done():
+            try:
+                await wait({task})
+            except CancelledError:  # noqa: PERF203
+                cancelled = True
+        if not task.cancelled():
+            task.exception()  # mark a late exception as retrieved
+        return cancelled
 
     def abort_error(self) -> Exception:
         """Return the exception to raise when execution has been aborted.
